@@ -1,6 +1,6 @@
 HC = "crates/tower-resilience-healthcheck/src/"
 CA = "crates/tower-resilience-cache/src/"
-MUT = [("sub", "R16-mut-self", r"\bself\b", "self_", None), ("inject", None, "start", "let mut self_ = self;")]
+MUT = [("sub", "R16-mut-self", r"\bself\b", "self_", -1), ("inject", None, "start", "let mut self_ = self;")]
 LISTEN = ("wrapcalls", "R6-closure-wrap", r"FnListener::new", "vx_wrap::<Listener>()", 1)
 WRAP = ("wrapcalls", "R6-closure-wrap", r"Arc::new", "vx_wrap()", 1)
 def setter(file, *extra):
